@@ -251,6 +251,16 @@ def out_channel(res, tier, scratch, binary):
                                                    properties=["StopCompletes"]), workers=NCPU, timeout=1200, name="outchan_rev")
     if "StopCompletes" not in out2 or "violated" not in out2:
         raise Infra("OutChannel: the reverse closing order is not rejected by TLC - the specification lost its teeth\n" + out2[-1500:])
+    apa = ""
+    if not quick:
+        # the structural invariants for every capacity 1..1000 (Apalache: inductive invariant, two steps)
+        from common import run_apalache
+        for args in (["--cinit=ConstInit", "--init=Init", "--inv=IndInv", "--length=0"],
+                     ["--cinit=ConstInit", "--init=IndInv", "--inv=IndInv", "--length=1"]):
+            ok, tail = run_apalache(scratch, "OutChannel", args, timeout=1200)
+            if not ok:
+                raise Infra("Apalache did not establish OutChannel.IndInv (%s):\n%s" % (" ".join(args), tail))
+        apa = "; IndInv inductive for every capacity 1..1000 (Apalache)"
     rc, o, err = run_harness(binary, ["deafpeer"], timeout=900)
     if rc != 0 or not o.strip():
         raise Infra("deafpeer harness failed: " + err[-2000:])
@@ -266,8 +276,8 @@ def out_channel(res, tier, scratch, binary):
     res.assumptions.append("peer that never reads: the outgoing queue is filled to within a few messages of its capacity "
                            "(995..1000 queued answers) from outside; which of the handshake's messages finds it full is "
                            "not observed, so every count in that window is played")
-    return {"exhaustive": "OutChannel cap=%d adders=%d: %d distinct / %d generated; reverse closing order rejected by TLC" % (
-                consts["Cap"], len(consts["Adders"]), st["distinct"], st["generated"]),
+    return {"exhaustive": "OutChannel cap=%d adders=%d: %d distinct / %d generated; reverse closing order rejected by TLC%s" % (
+                consts["Cap"], len(consts["Adders"]), st["distinct"], st["generated"], apa),
             "states": st["distinct"], "transitions": st["generated"], "scenarios": len(sc),
             "scenarios_that_reached_verification": len(reached),
             "scenarios_where_the_queue_filled_before_the_handshake": len([x for x in sc if not x["handshake_complete"]])}
